@@ -73,6 +73,50 @@ fn reference(t: &Tree, table: &Table, ops: &[exmex::Operator<'static, V>], vars:
     r
 }
 
+/// A chain `a o b o c ..` of one flagged (commutative) operator may be regrouped by exmex
+/// (neighbouring operands only, never reordered): every value a regrouping can compute is the
+/// combination of a contiguous run of the chain's operands.  True if one of those runs gives an
+/// error value although the left-to-right reference does not - then an error result of exmex
+/// is a consequence of a permitted regrouping (checked integer arithmetic is not associative
+/// with respect to overflow: `0*y^10*-7` at y = 8 is 0 from the left and an overflow from the right).
+fn regrouping_may_error(t: &Tree, table: &Table, ops: &[exmex::Operator<'static, V>], vars: &[String], vals: &[V]) -> bool {
+    fn chain<'t>(t: &'t Tree, o: usize, out: &mut Vec<&'t Tree>) {
+        match t {
+            Tree::Bin(o2, a, b) if *o2 == o => {
+                chain(a, o, out);
+                chain(b, o, out);
+            }
+            _ => out.push(t),
+        }
+    }
+    match t {
+        Tree::Un(_, a) => regrouping_may_error(a, table, ops, vars, vals),
+        Tree::Bin(o, a, b) => {
+            if table[*o].bin.as_ref().map(|b| b.comm).unwrap_or(false) {
+                let mut operands = vec![];
+                chain(t, *o, &mut operands);
+                if operands.len() > 2 {
+                    let f = ops.iter().find(|x| x.repr() == table[*o].name).unwrap().bin().unwrap();
+                    let mut dummy = false;
+                    let values: Vec<V> = operands.iter().map(|c| reference(c, table, ops, vars, vals, &mut dummy)).collect();
+                    for i in 0..values.len() {
+                        let mut acc = values[i].clone();
+                        for v in &values[i + 1..] {
+                            acc = (f.apply)(acc, v.clone());
+                            if matches!(acc, Val::Error(_)) {
+                                return true;
+                            }
+                        }
+                    }
+                }
+                return operands.iter().any(|c| regrouping_may_error(c, table, ops, vars, vals));
+            }
+            regrouping_may_error(a, table, ops, vars, vals) || regrouping_may_error(b, table, ops, vars, vals)
+        }
+        _ => false,
+    }
+}
+
 const VAL_LITS: &[&str] = &["0", "1", "2", "3", "4", "5", "7", "9", "2.0", "0.5", "1.5", "3.0", "true", "false", "10", "8"];
 
 const INT_BIN: &[&str] = &["+", "-", "*", "/", "%", "|", "&", "XOR", "<<", ">>", "min", "max", "^"];
@@ -151,6 +195,10 @@ fn expression_case(rng: &mut Rng, full_table: &Table, ops: &[exmex::Operator<'st
         return;
     }
     let got = catch(|| exmex::parse_val::<i32, f64>(&text).and_then(|e| if e.var_names() == vars.as_slice() { e.eval(&vals) } else { Err(exmex::ExError::new("variable list differs")) }));
+    if matches!(got, Ok(Ok(Val::Error(_)))) && regrouping_may_error(&tree, table, ops, &vars, &vals) {
+        st.bump("expression_cases_with_error_reachable_by_permitted_regrouping_not_judged");
+        return;
+    }
     let problem = match got {
         Err(m) => Some(format!("panic: {m}")),
         Ok(Err(e)) => Some(format!("error: {}", e.msg())),
@@ -215,7 +263,7 @@ pub fn run(ctx: &Ctx) -> i32 {
         "(1) every operator of ValOpsFactory<i32,f64> and <i64,f32> applied directly (function pointers) to the full catalogue (18 integers incl. MIN/MAX/0/-1/bit-width+-1, 23 floats incl. NaN/inf/-0.0/huge/integer-range edges, bools, none, error, arrays of length 0..5): unary x every value, binary x every ordered pair, `a if c else b` x every (a, c, b); plus random operands; compared with a reference interpreter of the documented rules only (integer results exact in i128 or an error value, int/float promotion in + - * / min max, comparisons, error propagation, wrong kinds -> error value); pairs the documentation says nothing about are executed but not judged. (2) random expressions over the value table (small operands, so flagged operators really are AC) through parse_val in random spellings: value must equal the shipped operator functions applied along the reference tree. distinct_nontrivial = operators x arity x type pair + distinct expression tree classes.",
     )
     .assume("array broadcasting, &&/|| on non-booleans, != beyond negation of ==, Int^Float, elementary functions of integers: no documented claim, not judged")
-    .assume("expressions with an intermediate error value are not judged at expression level (regrouping of flagged operators may move it)")
+    .assume("expressions with an intermediate error value are not judged at expression level (regrouping of flagged operators may move it); likewise an error result is not judged when some contiguous run of a flagged operator's chain overflows although the left-to-right evaluation does not")
     .require("applications_judged", 20000)
     .require("applications_where_an_error_value_is_promised", 2000)
     .require("if_else_judged", 1000)
